@@ -34,14 +34,14 @@ func init() {
 			}
 			return 12
 		},
-		Rule: "case = one sequence of n distinct random 32-byte hashes; quick n = 1..40, 255,256,257, 4095,4096,4097 and 11 random n <= 5000 (thorough: 1..300, every 16^k-2..16^k+2 for k<=4 incl. 65534..65538, random <= 5000, a few <= 70000). Per case: (a) headers of two accumulations (one re-opened from its buckets at PRNG-chosen points, one on fresh buckets) are compared with each other and with an independently computed header (own SHA3-256 hexary tree, groups of 16 bottom-up) at every prefix (n<=300) or at boundary+random prefixes; (b) Prove(i,0) for every i (n<=300) or boundary+random i must be accepted by a FRESH tree over an empty bucket, and so must the harness' own reference proof; Prove(i,-1) must be accepted when all keys are added in increasing order; (c) altered inputs (hash bit flip, neighbour's hash, proof-node bit flip, node truncated/extended by one hash, dropped first/last node, swapped nodes, extra leading/trailing node, wrong key) must be rejected with an error, not accepted and not crash; (d) SetLen(m) for every m<n (n<=300) or boundary+random m: Len and header must equal the header of accumulating only the prefix, then different hashes are re-added and headers and proofs are re-checked, then the original suffix is restored. Non-trivial = distinct (n,i,alteration) and (n,m) evaluated with n>=2.",
+		Rule: "case = one sequence of n distinct random 32-byte hashes; quick n = 1..40, 255,256,257, 4095,4096,4097 and 11 random n <= 5000 (thorough: 1..300, every 16^k-2..16^k+2 for k<=4 incl. 65534..65538, random <= 5000, a few <= 70000). Per case: (a) headers of two accumulations (one re-opened from its buckets at PRNG-chosen points, one on fresh buckets) are compared with each other and with an independently computed header (own SHA3-256 hexary tree, groups of 16 bottom-up) at every prefix (n<=300) or at boundary+random prefixes; (b) Prove(i,0) for every i (n<=300) or boundary+random i must be accepted by a FRESH tree over an empty bucket, and so must the harness' own reference proof; Prove(i,-1) must be accepted when all keys are added in increasing order; (c) altered inputs (hash bit flip, neighbour's hash, proof-node bit flip, node truncated/extended by one hash, dropped first/last node, swapped nodes, extra leading/trailing node, wrong key) must be rejected with an error, not accepted and not crash; (c2) three fresh builders per case are first fed adds that must be rejected (premature Prove(j,-1) whose omitted branches the builder never saw, proof-less adds with right/wrong/empty/nil hash) and then - with further bogus proof-less adds interleaved - the complete in-order stream of incremental proofs, all of which must still be accepted; (d) SetLen(m) for every m<n (n<=300) or boundary+random m: Len and header must equal the header of accumulating only the prefix, then different hashes are re-added and headers and proofs are re-checked, then the original suffix is restored. Non-trivial = distinct (n,i,alteration) and (n,m) evaluated with n>=2.",
 		MinNonTrivial: func(t string) int {
 			if t == ev.Thorough {
 				return 300000
 			}
 			return 10000
 		},
-		Required: []string{"headers_checked", "headers_determinism_checked", "reopen_points", "proofs_accepted_fresh", "reference_proofs_accepted", "incremental_proofs_accepted", "altered_rejected", "rewinds_checked", "rewind_to_power_of_16", "rewind_then_different_hashes", "setlen_too_large_rejected", "lengths_crossing_16", "lengths_crossing_256", "lengths_crossing_4096"},
+		Required: []string{"headers_checked", "headers_determinism_checked", "reopen_points", "proofs_accepted_fresh", "reference_proofs_accepted", "incremental_proofs_accepted", "altered_rejected", "premature_adds_rejected", "proofless_adds_rejected", "incremental_after_rejected_adds_accepted", "rewinds_checked", "rewind_to_power_of_16", "rewind_then_different_hashes", "setlen_too_large_rejected", "lengths_crossing_16", "lengths_crossing_256", "lengths_crossing_4096"},
 		Assumptions: []string{"golang.org/x/crypto/sha3 (called directly by the harness) is the reference hash", "db.NewMapDB buckets are faithful key-value stores", "leaf hashes are distinct 32-byte strings"},
 		TimeoutSec: func(t string) int {
 			if t == ev.Thorough {
@@ -455,6 +455,111 @@ func (s *cs) checkIncremental(treeBucket db.Bucket, hd *hexary.MerkleHeader, seq
 	s.c.Eval(len(seq))
 }
 
+// checkAfterRejectedAdds: a builder over an empty bucket is first fed adds that
+// must be rejected - premature incremental proofs (Prove(j,-1) for keys whose
+// omitted upper branches the builder has never seen) and proof-less adds with
+// the right, a wrong and an empty hash - and then the in-order stream of
+// incremental proofs, which must be accepted completely (a rejected add must
+// not change what the tree accepts afterwards). During the stream further
+// proof-less adds with wrong/empty hashes are interleaved; they can never be right.
+func (s *cs) checkAfterRejectedAdds(treeBucket db.Bucket, hd *hexary.MerkleHeader, seq [][]byte) {
+	c, r, n := s.c, s.r, len(seq)
+	if n < 2 {
+		return
+	}
+	mt, err := hexary.NewMerkleTree(treeBucket, hd, -1)
+	if err != nil {
+		return
+	}
+	b, err := hexary.NewMerkleTree(bucket(), hd, -1)
+	if err != nil {
+		return
+	}
+	level := hexary.LevelFromLen(int64(n))
+	var prelude []string
+	bogus := func(j int, kind int, where string) bool {
+		var h []byte
+		name := ""
+		switch kind {
+		case 0:
+			h, name = []byte{}, "empty-hash"
+		case 1:
+			h, name = seq[(j+1)%n], "hash-of-other-key"
+		default:
+			h, name = nil, "nil-hash"
+		}
+		err, pn := guard(func() error { return b.Add(int64(j), h, nil) })
+		prelude = append(prelude, fmt.Sprintf("Add(%d,%s,nil)->%v", j, name, err))
+		if pn != nil || err == nil {
+			s.viol("proofless-add.accepted."+name+"."+where, map[string]interface{}{"n": n, "key": j, "panic": fmt.Sprint(pn), "sequence": prelude, "header": hdrStr(hd)})
+			return false
+		}
+		c.Count("proofless_adds_rejected", 1)
+		return true
+	}
+	for k := 0; k < 1+r.Intn(4); k++ {
+		j := 1 + r.Intn(n-1)
+		switch r.Intn(3) {
+		case 0: // premature genuine incremental proof
+			var proof [][]byte
+			err, pn := guard(func() (e error) { proof, e = mt.Prove(int64(j), -1); return })
+			if pn != nil || err != nil {
+				return
+			}
+			if len(proof) >= level {
+				continue // a full proof: legitimately acceptable
+			}
+			err, pn = guard(func() error { return b.Add(int64(j), seq[j], proof) })
+			prelude = append(prelude, fmt.Sprintf("Add(%d,hash_%d,Prove(%d,-1)[%d of %d nodes])->%v", j, j, j, len(proof), level, err))
+			if pn != nil || err == nil {
+				s.viol("premature-proof.accepted", map[string]interface{}{"n": n, "key": j, "panic": fmt.Sprint(pn), "sequence": prelude, "header": hdrStr(hd)})
+				return
+			}
+			c.Count("premature_adds_rejected", 1)
+		case 1: // right hash, no proof at all
+			err, pn := guard(func() error { return b.Add(int64(j), seq[j], nil) })
+			prelude = append(prelude, fmt.Sprintf("Add(%d,hash_%d,nil)->%v", j, j, err))
+			if pn != nil || err == nil {
+				s.viol("proofless-add.accepted.right-hash.before-stream", map[string]interface{}{"n": n, "key": j, "panic": fmt.Sprint(pn), "sequence": prelude, "header": hdrStr(hd)})
+				return
+			}
+			c.Count("proofless_adds_rejected", 1)
+		default:
+			if !bogus(j, r.Intn(3), "before-stream") {
+				return
+			}
+		}
+	}
+	interleave := map[int]bool{}
+	for k := 0; k < 3; k++ {
+		interleave[r.Intn(n)] = true
+	}
+	for i := range seq {
+		if c.Stopped() {
+			return
+		}
+		if interleave[i] {
+			if !bogus(r.Intn(n), r.Intn(3), "mid-stream") {
+				return
+			}
+		}
+		var proof [][]byte
+		err, pn := guard(func() (e error) { proof, e = mt.Prove(int64(i), -1); return })
+		if pn != nil || err != nil {
+			s.viol("prove-incremental.failed.after-rejected-adds", map[string]interface{}{"n": n, "index": i, "err": fmt.Sprint(err), "panic": fmt.Sprint(pn)})
+			return
+		}
+		err, pn = guard(func() error { return b.Add(int64(i), seq[i], proof) })
+		if pn != nil || err != nil {
+			s.viol("incremental-proof.rejected-in-key-order.after-rejected-adds", map[string]interface{}{"n": n, "index": i, "err": fmt.Sprint(err), "panic": fmt.Sprint(pn), "proof": proofHex(proof), "rejected_adds_before": prelude, "header": hdrStr(hd)})
+			return
+		}
+		c.Count("incremental_after_rejected_adds_accepted", 1)
+	}
+	c.Eval(n)
+	c.NonTrivial(fmt.Sprintf("S/%d/%x/%v", n, seq[0][:8], prelude))
+}
+
 func (s *cs) newHash(gen, k int) []byte {
 	return h256([]byte(fmt.Sprintf("%d/%d/%d", s.seed, k, gen)))
 }
@@ -601,6 +706,9 @@ func run(c *ev.Ctx) {
 		}
 		s.checkProofs(tb, hd, s.leaves, idx, "full", nAlter)
 		s.checkIncremental(tb2, hd2, s.leaves, "full")
+		for k := 0; k < 3; k++ {
+			s.checkAfterRejectedAdds(tb2, hd2, s.leaves)
+		}
 		for _, i := range idx {
 			c.NonTrivial(fmt.Sprintf("P/%d/%d/%x", n, i, s.leaves[i][:8]))
 		}
